@@ -114,10 +114,24 @@ func (c19Engine) Gen(g *Gen) {
 		}
 	}
 	rec("", maxLen)
+	// the same over an alphabet with the characters other syntaxes give a meaning: backslash,
+	// quotes, percent, semicolon, newline - here they are ordinary
+	alpha = []string{"a", ",", "=", "\\", "\"", "%", ";", "\n"}
+	var rec2 func(p string, n int)
+	rec2 = func(p string, n int) {
+		emitParse(p)
+		if n == 0 {
+			return
+		}
+		for _, a := range alpha {
+			rec2(p+a, n-1)
+		}
+	}
+	rec2("", maxLen-2)
 	for _, s := range []string{"foo=bar,fizz", "foo=bar,foo", "a= ", "a=\t", "output_path=/x,paths=source_relative,Ma/b.proto=c/d", "k=é,é=k", "\xff=\xfe,\xff", "a==,=,==a"} {
 		emitParse(s)
 	}
-	pool := []string{"a", "b", "c", "ab", "", " ", "x y", "1", "true", "é", "\xff", "a=b", "=", "==", "k", "zz", "A", "_", "-", "a b"}
+	pool := []string{"a", "b", "c", "ab", "", " ", "x y", "1", "true", "é", "\xff", "a=b", "=", "==", "k", "zz", "A", "_", "-", "a b", "x\\", "\\", "B", "Ab", "aB", "%d", "\"q\""}
 	nrand := 3000
 	if g.Thorough() {
 		nrand = 60000
@@ -253,6 +267,15 @@ func (c19Engine) Gen(g *Gen) {
 		g.Count("op", "codec-float")
 		g.Emit(in)
 	}
+	outs := []string{"gen", "a/b", "/abs/out", ".", "", "..", "x y", "sub/./dir/", "gen"}
+	for _, init := range []string{"-", "", "output_path=first", "foo=bar,output_path=/root/x", "output_path=", "output_path"} {
+		for i, a := range outs {
+			in := base("codec")
+			in.X = map[string]interface{}{"kind": "outpath", "init": init, "a": a, "b": outs[(i+3)%len(outs)]}
+			g.Count("op", "codec-outpath")
+			g.Emit(in)
+		}
+	}
 	durs := []int64{0, 1, -1, 999, 1000, 1e6, 1e9, 60e9, 3600e9, math.MaxInt64, math.MinInt64, math.MinInt64 + 1, 1500e6, 90061e9 + 1}
 	for i := 0; i < nrand/10; i++ {
 		durs = append(durs, g.Rng.Int63()>>uint(g.Rng.Intn(63))*int64(1-2*g.Rng.Intn(2)))
@@ -379,6 +402,22 @@ func (c19Engine) Run(raw json.RawMessage) (interface{}, error) {
 				}
 				if v, err := p.FloatDefault("unset", def); err != nil || !(v == def || (math.IsNaN(def) && math.IsNaN(v))) {
 					o.Got = fmt.Sprintf("FloatDefault(unset,%v) = %v (%v)", def, v, err)
+				}
+			}
+		case "outpath":
+			// SetOutputPath / OutputPath: the value set is the value read, whatever was there before
+			if init, _ := x["init"].(string); init != "-" {
+				p = pgs.ParseParameters(init)
+			}
+			if len(p) == 0 || p.Str("output_path") == "" {
+				if _, has := p["output_path"]; !has && p.OutputPath() != "." {
+					o.Got = fmt.Sprintf("OutputPath() of a map without the key = %q", p.OutputPath())
+				}
+			}
+			for _, v := range []string{x["a"].(string), x["b"].(string), x["a"].(string)} {
+				p.SetOutputPath(v)
+				if got := p.OutputPath(); got != v || p.Str("output_path") != v {
+					o.Got = fmt.Sprintf("SetOutputPath(%q) then OutputPath() = %q (stored %q)", v, got, p.Str("output_path"))
 				}
 			}
 		case "duration":
